@@ -5,15 +5,25 @@ first row, every higher level and the column itself, evaluated on the unsuppress
 R13.3 only group_by columns are rewritten; R13.4 page-start indices are cumulative page heights and
 restoration writes the original values at exactly those rows; R13.5 validation dominates
 suppression, raises ValueError and sees the whole table; R13.6 contiguity key covers all levels.
+
+R13.2-R13.4 interpret the functions over symbolic inputs (the lenient interpreter of rules/c05.py) and judge the
+data-frame expressions that are built (when/then/otherwise/alias chains, the list of page start indices), so
+helper extraction, loop vs comprehension, reduce vs accumulation loop and temporaries do not matter.  A construct
+that cannot be re-identified is an analysis gap (ctx.gap); a violation needs a recognised construct that
+contradicts the property.
 """
 from __future__ import annotations
 
 import ast
 
+from ..astmatch import alternatives, resolve
 from ..cfg import CFG
+from ..dtab import Unsupported, _cmp
 from ..linform import linform
-from ..pm import AnalysisError, dotted, unparse, walk_no_nested
+from ..pm import dotted, unparse, walk_no_nested
 from ..report import Ctx
+from .c05 import (LDT, BoolSym, CallSym, Carried, CmpSym, ElemSym, Init, RangeSym, SliceSym, SubSym, Sym, called, lin_of, lin_sub, parts, path_of,
+                  run_block, sym_env)
 
 NULL_AWARE = {"ne_missing", "eq_missing"}
 
@@ -53,129 +63,316 @@ def r13_1(ctx: Ctx) -> int:
                     neg = isinstance(p, ast.UnaryOp) and isinstance(p.op, (ast.Invert, ast.Not)) or (isinstance(p, ast.Attribute) and p.attr == "not_")
                     if not neg:
                         ctx.violation("R13.1", short, "eq_missing not negated " + unparse(node), fi.where(node), f"{short}: change detection uses equality without negation")
-    ctx.floor("R13.1", 3)
+        if not any(i.rule == "R13.1" and i.desc.startswith(short) for i in ctx.instances):
+            ctx.gap("R13.1", f"{short}: no comparison of a column with its shifted self was re-identified")
+    ctx.floor("R13.1", 2)
     return n
+
+
+# ------------------------------------------------------------------------------------------------------------
+# when(...).then(...).otherwise(...).alias(...) chains built by a function
+# ------------------------------------------------------------------------------------------------------------
+
+def _chains(values) -> list[dict]:
+    """every rewritten-column expression among the symbolic values: {'alias', 'otherwise', 'then', 'when', 'expr'}"""
+    out, seen = [], set()
+    for v in values:
+        for p in parts(v):
+            if isinstance(p, CallSym) and p.meth == "alias" and id(p) not in seen:
+                seen.add(id(p))
+                d = {"expr": p, "alias": p.args[0] if p.args else None}
+                x = p.recv
+                while isinstance(x, CallSym) and x.meth in ("otherwise", "then", "when"):
+                    d.setdefault(x.meth, x.args[0] if x.args else None)
+                    x = x.recv
+                if "when" in d and "then" in d:
+                    out.append(d)
+    return out
+
+
+def _column_of(v):
+    """the column an expression `pl.col(c)` / `df[c]` denotes"""
+    if isinstance(v, CallSym) and v.meth == "col" and len(v.args) == 1:
+        return v.args[0]
+    if isinstance(v, SubSym) and not isinstance(v.base, SubSym) and isinstance(v.key, Sym):
+        return v.key
+    return None
+
+
+def _columns_in(v) -> list:
+    out = []
+    for p in parts(v):
+        c = _column_of(p)
+        if c is not None and not any(c is x for x in out):
+            out.append(c)
+    return out
+
+
+def _interpret(ctx: Ctx, short: str, watch=()):
+    fi = ctx.pm.func(short)
+    dt = LDT(ctx.pm, watch=set(watch) | {"with_columns", "append"})
+    return fi, dt, run_block(dt, fi.node.body, sym_env(fi), fi)
+
+
+def _built(leaves) -> list:
+    vals = []
+    for v, env, eff, out in leaves:
+        for e in eff:
+            if e[0] == "call" and e[1] in ("with_columns", "append"):
+                vals.extend(e[3])
+                vals.extend(e[4].values())
+        if isinstance(out, tuple) and out[0] == "return":
+            vals.append(out[1])
+    return vals
 
 
 def r13_2_3(ctx: Ctx) -> None:
     pm = ctx.pm
-    fi = pm.func("GroupingService._suppress_hierarchical_columns")
-    outer = [n for n in walk_no_nested(fi.node) if isinstance(n, ast.For) and "group_by" in unparse(n.iter)
-             and not isinstance(getattr(n, "_parent", None), ast.For)]
-    outer = [n for n in outer if isinstance(n.iter, ast.Call) and dotted(n.iter.func) == "enumerate"] or outer
-    if not outer:
-        ctx.violation("R13.2", fi.short, "no level loop", fi.where(), "hierarchical suppression no longer iterates over the group_by levels")
-        return
-    lp = outer[0]
-    tgt = lp.target
-    idx_name = tgt.elts[0].id if isinstance(tgt, ast.Tuple) else None
-    col_name = tgt.elts[1].id if isinstance(tgt, ast.Tuple) else (tgt.id if isinstance(tgt, ast.Name) else None)
-    body_txt = unparse(lp)
-    first_row = "int_range" in body_txt and "== 0" in body_txt
-    inner = [n for s in lp.body for n in ast.walk(s) if isinstance(n, ast.For)]
-    higher_ok = False
-    for n in inner:
-        it = n.iter
-        if isinstance(it, ast.Subscript) and unparse(it.value) == "group_by" and isinstance(it.slice, ast.Slice) and it.slice.lower is None \
-                and it.slice.upper is not None and unparse(it.slice.upper) == idx_name and it.slice.step is None:
-            hv = n.target.id if isinstance(n.target, ast.Name) else None
-            if hv and any(_has_shift(x) and hv in unparse(x) for x in ast.walk(n)):
-                higher_ok = True
-    own_ok = any(_has_shift(c) and col_name in unparse(c) and not isinstance(getattr(c, "_in_inner", None), bool)
-                 for s in lp.body if not isinstance(s, ast.For) for c in ast.walk(s) if isinstance(c, (ast.Call, ast.Compare)))
-    ors = [n for s in lp.body for n in ast.walk(s) if isinstance(n, ast.BinOp) and isinstance(n.op, ast.BitOr)]
-    ands = [n for s in lp.body for n in ast.walk(s) if isinstance(n, ast.BinOp) and isinstance(n.op, ast.BitAnd)]
-    ctx.instance("R13.2", fi.where(lp), f"level loop: first-row term {first_row}; higher levels group_by[:{idx_name}] compared {higher_ok}; own column compared {own_ok}; "
-                 f"combined by | ({len(ors)}) & ({len(ands)})")
-    if not first_row:
-        ctx.violation("R13.2", fi.short, "first row", fi.where(lp), "the first row is not unconditionally shown")
-    if not higher_ok:
-        ctx.violation("R13.2", fi.short, "higher levels", fi.where(lp), f"show-condition of a level does not include a change of every higher level (group_by[:{idx_name}])")
-    if not own_ok:
-        ctx.violation("R13.2", fi.short, "own column", fi.where(lp), "show-condition does not include a change of the column itself")
-    if not ors or ands:
-        ctx.violation("R13.2", fi.short, "combination", fi.where(lp), "conditions are not combined by OR only")
-    # evaluated on the unsuppressed frame: with_columns inside the loop must not be applied to a loop-carried frame
-    for s in lp.body:
-        for n in ast.walk(s):
-            if isinstance(n, ast.Assign) and isinstance(n.value, ast.Call) and isinstance(n.value.func, ast.Attribute) \
-                    and n.value.func.attr == "with_columns" and isinstance(n.value.func.value, ast.Name) \
-                    and any(isinstance(t, ast.Name) and t.id == n.value.func.value.id for t in n.targets):
-                ctx.instance("R13.2", fi.where(n), f"loop-carried frame `{unparse(n)[:70]}`")
-                ctx.violation("R13.2", fi.short, "levels evaluated on suppressed frame", fi.where(n),
-                              f"`{unparse(n)[:80]}` inside the level loop: a lower level is computed on the frame in which its parents are "
-                              "already blanked, so a child is blanked when its parent changes but the child does not")
-    # R13.3 only the group_by column is written
+    short = "GroupingService._suppress_hierarchical_columns"
+    fi = pm.func(short)
+    try:
+        fi, dt, leaves = _interpret(ctx, short)
+    except Unsupported as e:
+        ctx.gap("R13.2", f"_suppress_hierarchical_columns could not be interpreted ({e})")
+        leaves = []
+    chains = []
+    for v, env, eff, out in leaves:
+        for d in _chains(_built([(v, env, eff, out)])):
+            if not any(d["expr"].path == x[0]["expr"].path for x in chains):
+                chains.append((d, env))
+    if leaves and not chains:
+        ctx.gap("R13.2", "_suppress_hierarchical_columns: no when(...).then(...).otherwise(...).alias(...) expression was re-identified")
+    for d, env in chains:
+        col = _column_of(d["then"])
+        if col is None:
+            continue                          # reported by R13.3
+        # which level is this?  (G, index) such that col = G[index]
+        G = index = None
+        if isinstance(col, SubSym) and isinstance(col.base, ElemSym) and isinstance(col.base.source, CallSym) and col.base.source.meth == "enumerate" and col.key == 1:
+            G, index = col.base.source.args[0], lin_of(SubSym(f"{col.base.path}[0]", None, col.base, 0))
+        elif isinstance(col, SubSym) and isinstance(col.key, ElemSym) and isinstance(col.key.source, RangeSym):
+            G, index = col.base, lin_of(col.key)
+        elif isinstance(col, ElemSym):
+            G = col.source
+        cond = d["when"]
+        disj = list(cond.operands) if isinstance(cond, BoolSym) and cond.op == "|" else [cond]
+        if any(isinstance(p, BoolSym) and p.op == "&" for p in parts(cond)):
+            ctx.violation("R13.2", fi.short, "combination", fi.where(), "the show-conditions of a level are combined with & (a value must be shown when ANY of: first row, a higher level changed, it changed)")
+        own = higher = first = False
+        unknown = []
+        for x in disj:
+            cols = _columns_in(x)
+            if isinstance(x, CmpSym) and "int_range" in called(x) and (x.right == 0 or x.left == 0):
+                first = True
+            elif isinstance(x, Carried):
+                after = env.get(x.path)
+                keeps = any(p is not after and isinstance(p, Carried) and p.path == x.path for p in parts(after)) or (isinstance(after, Carried) and after.path == x.path)
+                if keeps:
+                    higher = True
+                else:
+                    ctx.violation("R13.2", fi.short, "higher levels", fi.where(),
+                                  f"the change flag `{x.path}` carried from one level to the next is overwritten with `{path_of(after)[:70]}`: a level only sees a change of "
+                                  "its immediate parent, not of every higher level")
+                    higher = True          # judged
+            elif "shift" in called(x) and len(cols) == 1:
+                c = cols[0]
+                if c.path == col.path:
+                    own = True
+                elif isinstance(c, ElemSym) and isinstance(c.source, SliceSym) and G is not None and path_of(c.source.base) == path_of(G) and c.source.lo in (None, 0):
+                    hi = lin_of(c.source.hi) if c.source.hi is not None else None
+                    if index is not None and hi == index:
+                        higher = True
+                    elif index is not None and hi == lin_sub(index, {"": -1}):
+                        higher = own = True
+                    else:
+                        higher = True      # judged
+                        ctx.violation("R13.2", fi.short, "higher levels", fi.where(),
+                                      f"the higher levels compared for a column are `{path_of(c.source)[:60]}`, not every level above it")
+                else:
+                    unknown.append(x)
+            else:
+                unknown.append(x)
+        ctx.instance("R13.2", fi.where(), f"level `{path_of(col)[:50]}` shown when: first row {first}; a higher level changed {higher}; itself changed {own}; "
+                     f"{len(unknown)} other term(s)")
+        if unknown:
+            ctx.gap("R13.2", f"_suppress_hierarchical_columns: show-condition term `{path_of(unknown[0])[:70]}` not recognised")
+            continue
+        if not own:
+            ctx.violation("R13.2", fi.short, "own column", fi.where(), "show-condition does not include a change of the column itself")
+        if not higher:
+            ctx.violation("R13.2", fi.short, "higher levels", fi.where(), "show-condition of a level does not include a change of every higher level")
+    # evaluated on the unsuppressed frame: with_columns inside a loop must not be applied to a loop-carried frame
+    for n in walk_no_nested(fi.node):
+        if isinstance(n, ast.Assign) and isinstance(n.value, ast.Call) and isinstance(n.value.func, ast.Attribute) \
+                and n.value.func.attr == "with_columns" and isinstance(n.value.func.value, ast.Name) \
+                and any(isinstance(t, ast.Name) and t.id == n.value.func.value.id for t in n.targets) \
+                and any(isinstance(a, (ast.For, ast.While)) for a in _anc(n, fi.node)):
+            ctx.instance("R13.2", fi.where(n), f"loop-carried frame `{unparse(n)[:70]}`")
+            ctx.violation("R13.2", fi.short, "levels evaluated on suppressed frame", fi.where(n),
+                          f"`{unparse(n)[:80]}` inside the level loop: a lower level is computed on the frame in which its parents are "
+                          "already blanked, so a child is blanked when its parent changes but the child does not")
+    # R13.3 only the group_by column is written, blanks are nulls, shown cells keep the original value
     for short in ("GroupingService._suppress_single_column", "GroupingService._suppress_hierarchical_columns", "GroupingService.restore_page_context"):
-        f = pm.func(short)
-        for c in walk_no_nested(f.node):
-            if isinstance(c, ast.Call) and isinstance(c.func, ast.Attribute) and c.func.attr == "alias":
-                arg = unparse(c.args[0]) if c.args else "?"
-                allowed = {"column", "col"}
-                ok = arg in allowed
-                ctx.instance("R13.3", f.where(c), f"{short}: rewritten column alias({arg})")
-                if not ok:
-                    ctx.violation("R13.3", short, "alias " + arg, f.where(c), f"{short}: writes column `{arg}`, not the group_by column being processed")
-            if isinstance(c, ast.Call) and isinstance(c.func, ast.Attribute) and c.func.attr == "otherwise":
-                arg = unparse(c.args[0]) if c.args else "?"
-                if short != "GroupingService.restore_page_context" and arg != "None":
-                    ctx.violation("R13.3", short, "otherwise " + arg, f.where(c), f"{short}: suppressed cells are set to `{arg}` instead of null (rendered blank)")
-            if isinstance(c, ast.Call) and isinstance(c.func, ast.Attribute) and c.func.attr == "then" and short != "GroupingService.restore_page_context":
-                arg = unparse(c.args[0]) if c.args else "?"
-                ok = arg in ("df[column]", "pl.col(column)")
-                if not ok:
-                    ctx.violation("R13.3", short, "then " + arg, f.where(c), f"{short}: shown cells take `{arg}` instead of the original value")
+        try:
+            f, dt, lv = _interpret(ctx, short)
+        except Unsupported as e:
+            ctx.gap("R13.3", f"{short} could not be interpreted ({e})")
+            continue
+        seen = set()
+        for d in _chains(_built(lv)):
+            if d["expr"].path in seen:
+                continue
+            seen.add(d["expr"].path)
+            restore = short.endswith("restore_page_context")
+            keep = d["otherwise"] if restore else d["then"]
+            kc = _column_of(keep)
+            ctx.instance("R13.3", f.where(), f"{short}: rewritten column alias({path_of(d['alias'])[:50]}); kept value `{path_of(keep)[:50]}`")
+            if kc is None:
+                ctx.violation("R13.3", short, ("otherwise " if restore else "then ") + path_of(keep)[:50], f.where(),
+                              f"{short}: cells that are not {'restored' if restore else 'suppressed'} take `{path_of(keep)[:60]}` instead of the column's own value")
+            elif path_of(d["alias"]) != path_of(kc):
+                ctx.violation("R13.3", short, "alias " + path_of(d["alias"])[:50], f.where(), f"{short}: writes column `{path_of(d['alias'])[:50]}` with the values of `{path_of(kc)[:50]}`")
+            if not restore and "otherwise" in d and d["otherwise"] is not None:
+                ctx.violation("R13.3", short, "otherwise " + path_of(d["otherwise"])[:50], f.where(), f"{short}: suppressed cells are set to `{path_of(d['otherwise'])[:50]}` instead of null (rendered blank)")
+        if not seen:
+            ctx.gap("R13.3", f"{short}: no rewritten column (when/then/otherwise/alias) was re-identified")
     ctx.floor("R13.3", 3)
 
 
 def r13_4(ctx: Ctx) -> None:
     pm = ctx.pm
-    fi = pm.func("UnifiedRTFEncoder._apply_data_post_processing")
-    # the cumulative loop: for i, p in enumerate(pages): if i > 0: idx.append(cum); cum += p.data.height
-    found = False
-    for lp in [n for n in walk_no_nested(fi.node) if isinstance(n, ast.For)]:
-        apps = [c for s in lp.body for c in ast.walk(s) if isinstance(c, ast.Call) and isinstance(c.func, ast.Attribute) and c.func.attr == "append"
-                and "page_start" in unparse(c.func.value)]
-        if not apps:
+    short = "UnifiedRTFEncoder._apply_data_post_processing"
+    try:
+        fi, dt, leaves = _interpret(ctx, short, watch={"enhance_group_by", "restore_page_context"})
+    except Unsupported as e:
+        ctx.gap("R13.4", f"_apply_data_post_processing could not be interpreted ({e})")
+        leaves = []
+        fi = pm.func(short)
+    rp = pm.func("GroupingService.restore_page_context")
+    names = [a.arg for a in rp.node.args.args][1:]
+    n_restore = n_app = 0
+    for v, env, eff, out in leaves:
+        for e in eff:
+            if not (e[0] == "call" and e[1] == "restore_page_context"):
+                continue
+            n_restore += 1
+            a = dict(zip(names, e[3]))
+            a.update(e[4])
+            if len(names) < 4 or len(a) < 4:
+                ctx.gap("R13.4", "restore_page_context: call / signature (suppressed, original, group_by, page_start_indices) not recognised")
+                continue
+            sup, orig, idx = a[names[0]], a[names[1]], a[names[3]]
+            ctx.instance("R13.4", fi.where(e[5]), f"restore_page_context({', '.join(path_of(x)[:40] for x in e[3])})")
+            enh = [p for p in parts(sup) if isinstance(p, CallSym) and p.meth == "enhance_group_by"]
+            if enh and enh[0].args and path_of(enh[0].args[0]) != path_of(orig):
+                ctx.violation("R13.4", fi.short, "restore args " + ", ".join(path_of(x)[:30] for x in e[3]), fi.where(e[5]),
+                              f"restore_page_context reads the original values from `{path_of(orig)[:50]}`, not from the frame that was suppressed (`{path_of(enh[0].args[0])[:50]}`)")
+            elif not enh:
+                ctx.gap("R13.4", f"_apply_data_post_processing: first argument `{path_of(sup)[:50]}` of restore_page_context is not recognisably the suppressed frame")
+            if not isinstance(idx, list):
+                ctx.gap("R13.4", f"_apply_data_post_processing: page start indices `{path_of(idx)[:50]}` are not a list built in the function")
+                continue
+            apps = [x for x in eff if x[0] == "call" and x[1] == "append" and x[2] is idx]
+            for x in apps:
+                n_app += 1
+                acc = x[3][0] if x[3] else None
+                ctx.instance("R13.4", fi.where(x[5]), f"page start index appended: `{path_of(acc)[:50]}` on the path {_fmt(v)}")
+                if not isinstance(acc, Carried):
+                    ctx.violation("R13.4", fi.short, f"page_start_indices append({path_of(acc)[:50]})", fi.where(x[5]),
+                                  f"the page start index appended is `{path_of(acc)[:60]}`, not the number of rows on the preceding pages (an accumulator read before this page's rows are added)")
+                    continue
+                after = env.get(acc.path)
+                inc = lin_sub(lin_of(after) or {}, {acc.path: 1}) if lin_of(after) is not None else None
+                ok_inc = inc is not None and len(inc) == 1 and list(inc.values()) == [1] and next(iter(inc)).endswith(".data.height")
+                if acc.entry != 0 or not ok_inc:
+                    ctx.violation("R13.4", fi.short, f"page_start_indices append({acc.path}); += {path_of(after)[:50]}", fi.where(x[5]),
+                                  f"the accumulator `{acc.path}` starts at `{path_of(acc.entry)}` and becomes `{path_of(after)[:60]}` per page; page start indices must be the cumulative "
+                                  "heights (p.data.height) of the preceding pages, starting from 0")
+                # page 1 is skipped, every later page contributes
+                guard = [(k, val, dt.cmp.get(k)) for k, val in v.items() if dt.cmp.get(k) and dt.cmp[k][0] in (ast.Gt, ast.GtE, ast.NotEq, ast.Lt, ast.LtE, ast.Eq)
+                         and isinstance(dt.cmp[k][1], SubSym) and dt.cmp[k][1].key == 0 and isinstance(dt.cmp[k][2], int)]
+                if len(guard) == 1:
+                    k, val, rec = guard[0]
+                    at = [(_cmp(rec[0](), i, rec[2]) == val) for i in (0, 1, 2, 7)]
+                    if at != [False, True, True, True]:
+                        ctx.violation("R13.4", fi.short, f"page_start_indices guard {k[:50]}={val}", fi.where(x[5]),
+                                      f"a page start index is appended when `{k[:60]}` is {val}: that is {'also ' if at[0] else 'not '}for the first page and "
+                                      f"{'for' if all(at[1:]) else 'not for'} every later page; exactly the pages after the first start with restored context")
+                else:
+                    ctx.violation("R13.4", fi.short, "page_start_indices guard missing", fi.where(x[5]),
+                                  "a page start index is appended for every page including the first (or under an unrecognised condition)") if not guard else \
+                        ctx.gap("R13.4", "_apply_data_post_processing: several conditions on the page index")
+    if leaves and not n_restore:
+        ctx.gap("R13.4", "_apply_data_post_processing: no call of restore_page_context was re-identified (page context restoration)")
+    elif leaves and not n_app:
+        ctx.gap("R13.4", "_apply_data_post_processing: no path appends a page start index to the list handed to restore_page_context")
+    # what restore_page_context writes
+    try:
+        r, dtr, lv = _interpret(ctx, "GroupingService.restore_page_context")
+    except Unsupported as e:
+        ctx.gap("R13.4", f"restore_page_context could not be interpreted ({e})")
+        lv, r = [], rp
+    ps = [a.arg for a in r.node.args.args][1:]
+    seen = set()
+    for d in _chains(_built(lv)):
+        if d["expr"].path in seen or len(ps) < 4:
             continue
-        found = True
-        acc = unparse(apps[0].args[0])
-        aug = [a for s in lp.body for a in ast.walk(s) if isinstance(a, ast.AugAssign) and unparse(a.target) == acc and isinstance(a.op, ast.Add)]
-        guard = getattr(apps[0], "_parent", None)
-        gtest = None
-        p = apps[0]
-        while p is not None and p is not lp:
-            if isinstance(p, ast.If):
-                gtest = unparse(p.test)
-            p = getattr(p, "_parent", None)
-        app_stmt_idx = next(i for i, s in enumerate(lp.body) if any(x is apps[0] for x in ast.walk(s)))
-        aug_idx = next((i for i, s in enumerate(lp.body) if aug and any(x is aug[0] for x in ast.walk(s))), -1)
-        over_pages = "pages" in unparse(lp.iter)
-        inc = unparse(aug[0].value) if aug else "?"
-        ok = bool(aug) and inc.endswith(".data.height") and gtest in ("i > 0", "0 < i", "i >= 1", "i != 0") and app_stmt_idx < aug_idx and over_pages
-        ctx.instance("R13.4", fi.where(lp), f"page start indices: append({acc}) under `{gtest}` then {acc} += {inc}; loop over pages: {over_pages}")
-        if not ok:
-            ctx.violation("R13.4", fi.short, f"page_start_indices append({acc}) if {gtest}; += {inc}", fi.where(lp),
-                          "page start indices are not the cumulative heights of the preceding pages (append before adding this page's height, skipping page 1)")
-    if not found:
-        ctx.violation("R13.4", fi.short, "no page_start_indices", fi.where(), "page start indices are no longer collected for context restoration")
-    # restore is called with (suppressed, full frame, group_by, indices) and its result is what pages are re-sliced from
-    calls = [c for c in walk_no_nested(fi.node) if isinstance(c, ast.Call) and dotted(c.func).endswith("restore_page_context")]
-    for c in calls:
-        args = [unparse(a) for a in c.args]
-        ctx.instance("R13.4", fi.where(c), f"restore_page_context({', '.join(args)})")
-        if len(args) != 4 or "page_start" not in args[3] or "group_by" not in args[2]:
-            ctx.violation("R13.4", fi.short, "restore args " + ", ".join(args), fi.where(c), "restore_page_context is not given (suppressed, original, group_by, page_start_indices)")
-    if not calls:
-        ctx.violation("R13.4", fi.short, "no restore", fi.where(), "page context is no longer restored at page starts")
-    r = pm.func("GroupingService.restore_page_context")
-    txt = unparse(r.node)
-    loops_ok = "for page_start_idx in page_start_indices" in txt and "for col in group_by" in txt
-    mask_ok = "== page_start_idx" in txt and "original_df[col][page_start_idx]" in txt
-    ctx.instance("R13.4", r.where(), f"restore: loops over indices x group columns {loops_ok}; writes original value at that row {mask_ok}")
-    if not (loops_ok and mask_ok):
-        ctx.violation("R13.4", r.short, "restore body", r.where(), "restore_page_context no longer writes the original value of every group column at every page start row")
+        seen.add(d["expr"].path)
+        val = d["then"]
+        if isinstance(val, CallSym) and val.meth == "lit" and val.args:
+            val = val.args[0]
+        cell = None
+        if isinstance(val, SubSym) and isinstance(val.base, SubSym):
+            cell = (val.base.base, val.base.key, val.key)
+        elif isinstance(val, SubSym) and isinstance(val.base, CallSym) and val.base.meth == "row" and val.base.args:
+            cell = (val.base.recv, val.key, val.base.args[0])
+        elif isinstance(val, CallSym) and val.meth == "item" and len(val.args) == 2:
+            cell = (val.recv, val.args[1], val.args[0])
+        ctx.instance("R13.4", r.where(), f"restore: writes `{path_of(d['then'])[:70]}` where `{path_of(d['when'])[:70]}`")
+        roots = {p.path for p in parts(d["then"]) if isinstance(p, Init)}
+        if cell is None:
+            if ps[1] not in roots:
+                ctx.violation("R13.4", r.short, "restore body", r.where(),
+                              f"the value written at a page start is `{path_of(d['then'])[:70]}`, which is not read from the original frame `{ps[1]}` "
+                              "(the original value of the group column at that row)")
+            else:
+                ctx.gap("R13.4", f"restore_page_context: restored value `{path_of(d['then'])[:60]}` is not recognisable as one cell of the original frame")
+            continue
+        frame, col, row = cell
+        if not (isinstance(frame, Init) and frame.path == ps[1]):
+            ctx.violation("R13.4", r.short, "restore body", r.where(), f"the value written at a page start is read from `{path_of(frame)[:40]}`, not from the original frame `{ps[1]}`")
+        row_src = {p.path for p in parts(row) if isinstance(p, Init)}
+        if not (isinstance(row, ElemSym) and ps[3] in row_src):
+            ctx.violation("R13.4", r.short, "restore body row " + path_of(row)[:40], r.where(), f"the restored value is read from row `{path_of(row)[:50]}`, not from a page start row of `{ps[3]}`")
+        mask_rows = [p for p in parts(d["when"]) if isinstance(p, ElemSym) and ps[3] in {q.path for q in parts(p) if isinstance(q, Init)}]
+        w = d["when"]
+        if isinstance(w, CmpSym) and w.op is ast.Eq and ("int_range" in called(w.left)) != ("int_range" in called(w.right)):
+            at = w.right if "int_range" in called(w.left) else w.left
+            if lin_of(at) is not None and lin_of(row) is not None and lin_of(at) != lin_of(row):
+                ctx.violation("R13.4", r.short, "restore body mask", r.where(), f"the value of row `{path_of(row)[:40]}` is written at row `{path_of(at)[:40]}`")
+        elif isinstance(row, ElemSym) and not any(p.path == row.path for p in mask_rows):
+            if mask_rows:
+                ctx.violation("R13.4", r.short, "restore body mask", r.where(), f"the value of row `{path_of(row)[:40]}` is written at another row (`{path_of(d['when'])[:60]}`)")
+            else:
+                ctx.gap("R13.4", f"restore_page_context: the row mask `{path_of(d['when'])[:60]}` is not recognisably 'row index == page start'")
+        if path_of(col) != path_of(d["alias"]):
+            ctx.violation("R13.4", r.short, "restore body column", r.where(), f"column `{path_of(d['alias'])[:40]}` is restored with the value of column `{path_of(col)[:40]}`")
+        col_src = {p.path for p in parts(col) if isinstance(p, Init)}
+        if ps[2] not in col_src:
+            ctx.gap("R13.4", f"restore_page_context: restored column `{path_of(col)[:40]}` is not an element of `{ps[2]}`")
+    if lv and not seen:
+        ctx.gap("R13.4", "restore_page_context: no rewritten column (when/then/otherwise/alias) was re-identified")
     ctx.floor("R13.4", 3)
+
+
+def _fmt(v: dict) -> str:
+    return "[" + ", ".join(f"{k[:40]}={x}" for k, x in sorted(v.items())) + "]"
+
+
+def _strip_clone(e: ast.AST) -> ast.AST:
+    while isinstance(e, ast.Call) and isinstance(e.func, ast.Attribute) and e.func.attr in ("clone", "copy") and not e.args:
+        e = e.func.value
+    return e
 
 
 def r13_5_6(ctx: Ctx) -> None:
@@ -187,63 +384,99 @@ def r13_5_6(ctx: Ctx) -> None:
     dom = g.dominators()
     ok = bool(val_nodes) and bool(sup_nodes) and all(any(id(v) in dom.get(id(s), set()) for v in val_nodes) for s in sup_nodes)
     ctx.instance("R13.5", e.where(), f"validate_data_sorting dominates {len(sup_nodes)} suppression call(s): {ok}")
-    if not ok:
+    if not sup_nodes:
+        ctx.gap("R13.5", "enhance_group_by: the suppression calls (_suppress_*) were not re-identified")
+    elif not ok:
         ctx.violation("R13.5", e.short, "validation does not dominate suppression", e.where(), "group_by suppression can run without the contiguity validation")
+    params = [a.arg for a in e.node.args.args]
+
+    def root(x: ast.AST | None) -> str:
+        return unparse(_strip_clone(resolve(x, e.node))) if x is not None else "?"
+    sup_frames = set()
+    for s in sup_nodes:
+        for c in ast.walk(s.ast):
+            if isinstance(c, ast.Call) and dotted(c.func).split(".")[-1].startswith("_suppress") and c.args:
+                sup_frames.add(root(c.args[0]))
+                sup_frames |= {unparse(_strip_clone(x)) for x in alternatives(c.args[0], e.node)}
     for v in val_nodes:
         for c in ast.walk(v.ast):
             if isinstance(c, ast.Call) and dotted(c.func).endswith("validate_data_sorting"):
-                a0 = unparse(c.args[0]) if c.args else "?"
-                kw = {k.arg: unparse(k.value) for k in c.keywords}
-                if a0 != "df" or kw.get("group_by") != "group_by":
-                    ctx.violation("R13.5", e.short, f"validate args {a0} {kw}", e.where(c), "validation is not applied to the frame and group_by list being suppressed")
+                a0 = root(c.args[0]) if c.args else root(next((k.value for k in c.keywords if k.arg == "df"), None))
+                kw = {k.arg: root(k.value) for k in c.keywords}
+                gb = kw.get("group_by")
+                ctx.instance("R13.5", e.where(c), f"validate_data_sorting({a0}, group_by={gb})")
+                if sup_frames and a0 not in sup_frames:
+                    ctx.violation("R13.5", e.short, f"validate args {a0} {kw}", e.where(c), f"validation is applied to `{a0}`, not to the frame being suppressed ({sorted(sup_frames)})")
+                if gb is None or gb not in params:
+                    if gb is None:
+                        ctx.violation("R13.5", e.short, f"validate args {a0} {kw}", e.where(c), "validation is not given the group_by list being suppressed")
+                    else:
+                        ctx.gap("R13.5", f"enhance_group_by: group_by argument `{gb}` of the validation not recognised")
     vfi = pm.func("GroupingService.validate_data_sorting")
     raises = [r for r in walk_no_nested(vfi.node) if isinstance(r, ast.Raise)]
     for r in raises:
-        en = dotted(r.exc.func) if isinstance(r.exc, ast.Call) else "?"
+        en = dotted(r.exc.func) if isinstance(r.exc, ast.Call) else (dotted(r.exc) if r.exc is not None else "re-raise")
         ctx.instance("R13.5", vfi.where(r), f"validate_data_sorting raises {en}")
-        if en != "ValueError":
+        if en not in ("ValueError", "re-raise"):
             ctx.violation("R13.5", vfi.short, "raise " + en, vfi.where(r), "non-contiguous data must be rejected with ValueError")
-    if len(raises) < 3:
-        ctx.violation("R13.5", vfi.short, f"{len(raises)} raises", vfi.where(), "contiguity validation lost a raise (first level / deeper levels / missing columns)")
+    if not raises:
+        ctx.violation("R13.5", vfi.short, "0 raises", vfi.where(), "contiguity validation never raises: non-contiguous data is no longer rejected")
+    elif len(raises) < 3:
+        ctx.gap("R13.5", f"validate_data_sorting: {len(raises)} raise statement(s) re-identified (first level / deeper levels / missing columns expected)")
     # the whole table is validated: enhance_group_by is called once with the full frame, outside any page loop
     p = pm.func("UnifiedRTFEncoder._apply_data_post_processing")
     calls = [c for c in walk_no_nested(p.node) if isinstance(c, ast.Call) and dotted(c.func).endswith("enhance_group_by")]
-    params = [a.arg for a in p.node.args.args]
-    from ..linform import single_assign_env
-    env = single_assign_env(p.node)
+    pparams = [a.arg for a in p.node.args.args]
     for c in calls:
-        a0 = c.args[0] if c.args else None
-        while isinstance(a0, ast.Name) and a0.id in env and a0.id not in params:
-            a0 = env[a0.id]
+        a0 = _strip_clone(resolve(c.args[0], p.node)) if c.args else None
         in_loop = any(isinstance(x, (ast.For, ast.While, ast.ListComp, ast.GeneratorExp)) for x in _anc(c, p.node))
         txt = unparse(a0) if a0 is not None else "?"
-        ok = (txt == "processed_df") and not in_loop
+        whole = isinstance(a0, ast.Name) and a0.id in pparams
         ctx.instance("R13.5", p.where(c), f"enhance_group_by({txt}, …) in a loop: {in_loop}")
-        if not ok:
+        if in_loop:
             ctx.violation("R13.5", p.short, f"enhance_group_by({txt}) loop={in_loop}", p.where(c),
                           "group_by validation/suppression is applied to a page slice instead of the whole table: keys split across a page "
                           "boundary are no longer rejected")
+        elif not whole:
+            if any(isinstance(x, ast.Call) and isinstance(x.func, ast.Attribute) and x.func.attr in ("slice", "head", "tail", "filter") for x in ast.walk(a0)) or isinstance(a0, ast.Subscript):
+                ctx.violation("R13.5", p.short, f"enhance_group_by({txt}) loop={in_loop}", p.where(c), f"group_by validation/suppression is applied to `{txt}`, a part of the table")
+            else:
+                ctx.gap("R13.5", f"_apply_data_post_processing: frame `{txt}` handed to enhance_group_by is not recognisably the whole processed table")
     if not calls:
-        ctx.violation("R13.5", p.short, "no enhance_group_by", p.where(), "group_by suppression is no longer applied")
+        ctx.gap("R13.5", "_apply_data_post_processing: no call of enhance_group_by was re-identified")
     # R13.6 contiguity key uses all levels up to the current one
-    ok6 = False
-    for n in walk_no_nested(vfi.node):
-        if isinstance(n, ast.Assign) and unparse(n.targets[0]) == "group_cols" and isinstance(n.value, ast.Subscript) and isinstance(n.value.slice, ast.Slice):
-            sl = n.value.slice
-            up = linform(sl.upper) if sl.upper is not None else None
-            ok6 = sl.lower is None and sl.step is None and up == {"i": 1, "": 1} and unparse(n.value.value) == "unique_vars"
-            ctx.instance("R13.6", vfi.where(n), f"contiguity key columns `{unparse(n.value)}`")
-            if not ok6:
-                ctx.violation("R13.6", vfi.short, "group_cols " + unparse(n.value), vfi.where(n),
-                              f"contiguity of level i is checked on `{unparse(n.value)}` instead of all levels up to i (unique_vars[:i + 1])")
-    if not ok6 and not any(f.rule == "R13.6" for f in ctx.findings):
-        ctx.violation("R13.6", vfi.short, "no group_cols", vfi.where(), "the hierarchical contiguity key is no longer built from unique_vars[:i + 1]")
+    n6 = 0
+    for lp in [n for n in walk_no_nested(vfi.node) if isinstance(n, ast.For)]:
+        it = lp.iter
+        if not (isinstance(it, ast.Call) and dotted(it.func) == "enumerate" and it.args and isinstance(lp.target, ast.Tuple) and isinstance(lp.target.elts[0], ast.Name)):
+            continue
+        seq, iv = unparse(it.args[0]), lp.target.elts[0].id
+        for n in ast.walk(lp):
+            if isinstance(n, ast.Subscript) and isinstance(n.slice, ast.Slice) and unparse(n.value) == seq and isinstance(n.ctx, ast.Load):
+                sl = n.slice
+                up = linform(sl.upper) if sl.upper is not None else None
+                lo_ok = sl.lower is None or (isinstance(sl.lower, ast.Constant) and sl.lower.value == 0)
+                if up is None or iv not in up:
+                    continue                   # not a level-dependent key
+                n6 += 1
+                ok6 = lo_ok and sl.step is None and up == {iv: 1, "": 1}
+                ctx.instance("R13.6", vfi.where(n), f"contiguity key columns `{unparse(n)}`")
+                if not ok6:
+                    ctx.violation("R13.6", vfi.short, "group_cols " + unparse(n), vfi.where(n),
+                                  f"contiguity of level {iv} is checked on `{unparse(n)}` instead of all levels up to {iv} ({seq}[:{iv} + 1])")
+    if not n6:
+        ctx.gap("R13.6", "validate_data_sorting: the hierarchical contiguity key (levels[:i + 1] inside the loop over the levels) was not re-identified")
     # composite key is separator-joined and null-safe
-    txt = unparse(vfi.node)
-    sep_ok = "concat_str" in txt and "separator=" in txt and "fill_null" in txt
-    ctx.instance("R13.6", vfi.where(), f"composite key: concat_str with separator and fill_null: {sep_ok}")
-    if not sep_ok:
-        ctx.violation("R13.6", vfi.short, "composite key", vfi.where(), "composite group key is not a separator-joined, null-filled string (distinct keys can collide)")
+    cc = [c for c in walk_no_nested(vfi.node) if isinstance(c, ast.Call) and dotted(c.func).split(".")[-1] == "concat_str"]
+    if not cc:
+        ctx.gap("R13.6", "validate_data_sorting: the composite key (concat_str) was not re-identified")
+    for c in cc:
+        sep = next((k.value for k in c.keywords if k.arg == "separator"), None)
+        fills = any(isinstance(x, ast.Call) and isinstance(x.func, ast.Attribute) and x.func.attr == "fill_null" for x in walk_no_nested(vfi.node))
+        sep_ok = sep is not None and not (isinstance(sep, ast.Constant) and sep.value == "")
+        ctx.instance("R13.6", vfi.where(c), f"composite key: concat_str with separator {sep_ok} and fill_null {fills}")
+        if not sep_ok or not fills:
+            ctx.violation("R13.6", vfi.short, "composite key", vfi.where(c), "composite group key is not a separator-joined, null-filled string (distinct keys can collide)")
     ctx.floor("R13.5", 5)
 
 
@@ -257,12 +490,12 @@ def _anc(n, stop):
 def check(ctx: Ctx) -> None:
     ctx.explain(
         "R13.1 every comparison whose operand contains .shift( in the suppression functions is null-aware (ne_missing or "
-        "(… != …).fill_null(True)); R13.2 the hierarchical show-condition is first-row OR change of every column in "
-        "group_by[:i] OR change of the column, combined by | only, and is not evaluated on a loop-carried (already suppressed) "
-        "frame; R13.3 only alias(column) of the group column is rewritten, suppressed cells become null; R13.4 page start "
-        "indices are cumulative heights of preceding pages and restoration writes the original value for every index x group "
-        "column; R13.5 validate_data_sorting dominates suppression, raises ValueError, and is applied once to the whole table; "
-        "R13.6 contiguity key of level i = unique_vars[:i+1], separator-joined and null-filled.")
+        "(… != …).fill_null(True)); R13.2 (symbolic interpretation) the condition of every when(...).then(col).otherwise(None).alias(col) built by the hierarchical "
+        "suppression is an OR of: first row, a change of the column itself, a change of every column in group_by[:i] (or an accumulated carried flag), and it is not "
+        "evaluated on a loop-carried (already suppressed) frame; R13.3 the rewritten column is the column whose values are kept, suppressed cells become null; "
+        "R13.4 page start indices are the accumulator (from 0, += p.data.height) read before the page's rows are added, for every page but the first; restoration writes "
+        "original_df[col][page start] at the row equal to that page start for the same column; R13.5 validate_data_sorting dominates suppression, raises ValueError, and "
+        "is applied once to the whole table; R13.6 contiguity key of level i = levels[:i+1], separator-joined and null-filled.")
     ctx.assume("polars: a shifted column always contains a null; != with null yields null; ne_missing treats null as a value")
     ctx.undecided("equality of the down-filled column with the input for concrete frames")
     r13_1(ctx)
